@@ -249,6 +249,9 @@ def _op_step(o, w, ids, root_id, obs):
         if op == 'stop':
             return ('op', 'stop', wid, o.get('state', 'ERROR'), o.get('msg', 'stopped by operator'))
         return ('op', op, wid)
+    if op == 'wait':
+        # let virtual time pass up to the next due job (timers firing while the operator does nothing)
+        return ('tick',) if w.next_due() is not None else None
     if op in ('rerun', 'skip'):
         # target: a task sid, or '*' = the first task in ERROR
         cands = [t for t in obs['tk'] if t['state'] == 'ERROR'] if o.get('target', '*') == '*' else \
